@@ -66,7 +66,7 @@ func (c *responseWriter) WithExtraHeader(h http.Header) {
 // Sets the subprotocol based on the request header and the expected subprotocols list
 func (c *responseWriter) WithSubProtocol(requestHeader http.Header, expectedSubProtocols []string) {
 	if len(expectedSubProtocols) > 0 {
-		c.subprotocol = internal.GetIntersectionElem(expectedSubProtocols, internal.Split(requestHeader.Get(internal.SecWebSocketProtocol.Key), ","))
+		c.subprotocol = internal.GetIntersectionElem(expectedSubProtocols, internal.Split(strings.Join(requestHeader.Values(internal.SecWebSocketProtocol.Key), ","), ","))
 		if c.subprotocol == "" {
 			c.err = ErrSubprotocolNegotiation
 			return
@@ -201,7 +201,7 @@ func (c *Upgrader) doUpgradeFromConn(netConn net.Conn, br *bufio.Reader, r *http
 	if !strings.EqualFold(r.Header.Get(internal.SecWebSocketVersion.Key), internal.SecWebSocketVersion.Val) {
 		return nil, errors.New("gws: websocket version not supported")
 	}
-	if !internal.HttpHeaderContains(r.Header.Get(internal.Connection.Key), internal.Connection.Val) {
+	if !internal.HttpHeaderContainsToken(r.Header.Values(internal.Connection.Key), internal.Connection.Val) {
 		return nil, ErrHandshake
 	}
 	if !strings.EqualFold(r.Header.Get(internal.Upgrade.Key), internal.Upgrade.Val) {
